@@ -93,7 +93,7 @@ func (s *schema) fieldBoundaries(r *rand.Rand, fd protoreflect.FieldDescriptor, 
 			for j := 0; j < fds.Len(); j++ {
 				bs := s.fieldBoundaries(r, fds.Get(j), depth-1)
 				for bi, b := range bs {
-					if len(bs) > 6 && bi%3 != 1 && bi != len(bs)-1 {
+					if fds.Len() > 2 && len(bs) > 6 && bi%3 != 1 && bi != len(bs)-1 {
 						continue
 					}
 					v := defaults(sub)
@@ -418,24 +418,57 @@ func runCases(o *hx.Opts, w *lineio.Writer) error {
 			ids = append(ids, fmt.Sprintf("%s-%d", in.Stream, i))
 		}
 	}
-	// second direction: the bytes of the Lean encoder for every value
-	lean, leanErrs, err := leanEncode(o.Scratch, ins)
-	if err != nil {
-		// not fatal for the first direction: recorded in every observation (the driver
-		// turns a missing Lean direction into a broken correspondence)
-		lean = make([][]variant, len(ins))
-		leanErrs = make([]string, len(ins))
-		for i := range leanErrs {
-			leanErrs[i] = "lean encoder unavailable: " + err.Error()
-		}
+	// second direction: the bytes of the Lean encoder for every value. Chunks of cases are
+	// processed by a few workers (one driver process each); lines are written in case order.
+	const chunk = 4000
+	type res struct {
+		lines []*lineio.Case
+		err   error
 	}
-	for i, in := range ins {
-		obs, err := s.execCase(in, lean[i], leanErrs[i])
-		if err != nil {
-			return fmt.Errorf("case %s: %v", ids[i], err)
+	nch := (len(ins) + chunk - 1) / chunk
+	results := make([]chan res, nch)
+	sem := make(chan struct{}, 4)
+	for c := 0; c < nch; c++ {
+		results[c] = make(chan res, 1)
+		go func(c int) {
+			sem <- struct{}{}
+			defer func() { <-sem }()
+			lo, hi := c*chunk, (c+1)*chunk
+			if hi > len(ins) {
+				hi = len(ins)
+			}
+			part := ins[lo:hi]
+			lean, leanErrs, err := leanEncode(o.Scratch, fmt.Sprintf("lean-req-%d.jsonl", c), part)
+			if err != nil {
+				// not fatal for the first direction: recorded in every observation (the driver
+				// turns a missing Lean direction into a broken correspondence)
+				lean = make([][]variant, len(part))
+				leanErrs = make([]string, len(part))
+				for i := range leanErrs {
+					leanErrs[i] = "lean encoder unavailable: " + err.Error()
+				}
+			}
+			var out res
+			for i, in := range part {
+				obs, err := s.execCase(in, lean[i], leanErrs[i])
+				if err != nil {
+					out.err = fmt.Errorf("case %s: %v", ids[lo+i], err)
+					break
+				}
+				out.lines = append(out.lines, &lineio.Case{ID: ids[lo+i], In: in, Obs: obs})
+			}
+			results[c] <- out
+		}(c)
+	}
+	for c := 0; c < nch; c++ {
+		r := <-results[c]
+		if r.err != nil {
+			return r.err
 		}
-		if err := w.Put(&lineio.Case{ID: ids[i], In: in, Obs: obs}); err != nil {
-			return err
+		for _, l := range r.lines {
+			if err := w.Put(l); err != nil {
+				return err
+			}
 		}
 	}
 	return nil
